@@ -86,7 +86,7 @@ func mathCosh(L *LState) int {
 }
 
 func mathDeg(L *LState) int {
-	L.Push(LNumber(float64(L.CheckNumber(1)) * 180 / math.Pi))
+	L.Push(LNumber(float64(L.CheckNumber(1)) / (math.Pi / 180)))
 	return 1
 }
 
@@ -183,7 +183,7 @@ func mathPow(L *LState) int {
 }
 
 func mathRad(L *LState) int {
-	L.Push(LNumber(float64(L.CheckNumber(1)) * math.Pi / 180))
+	L.Push(LNumber(float64(L.CheckNumber(1)) * (math.Pi / 180)))
 	return 1
 }
 
